@@ -359,23 +359,25 @@ def selector_kind(ctx, b):
             continue
         a, c = e[2], e[3]
         # value chosen on the true branch
-        chosen = None
-        blk = b.blocks[bt[1]]
-        for st in blk["stmts"]:
-            if st["k"] == "assign" and st["rv"]["k"] == "use":
-                chosen = sy.operand(st["rv"]["op"])
-        if chosen is None:
-            return "unknown"
         def same(u, v):
             return S.norm(u) == S.norm(v) or (u[0] == "phi" and any(S.norm(z) == S.norm(v) for z in U.flatten_phi(u))) \
                 or (v[0] == "phi" and any(S.norm(z) == S.norm(u) for z in U.flatten_phi(v)))
         lt = e[1] in ("Lt", "Le")
-        if same(chosen, a):
-            kinds.add("min" if lt else "max")
-        elif same(chosen, c):
-            kinds.add("max" if lt else "min")
-        else:
+        found = None
+        blk = b.blocks[bt[1]]
+        for st in blk["stmts"]:
+            if st["k"] == "assign" and st["rv"]["k"] == "use" and st["place"]["ty"] == "f64":
+                chosen = sy.operand(st["rv"]["op"])
+                da, dc = S.norm(chosen) == S.norm(a), S.norm(chosen) == S.norm(c)
+                if da != dc:
+                    found = ("min" if lt else "max") if da else ("max" if lt else "min")
+                elif same(chosen, a) and not same(chosen, c):
+                    found = "min" if lt else "max"
+                elif same(chosen, c) and not same(chosen, a):
+                    found = "max" if lt else "min"
+        if found is None:
             return "unknown"
+        kinds.add(found)
     if len(kinds) == 1:
         return kinds.pop()
     return "mixed" if kinds else "unknown"
